@@ -544,10 +544,10 @@ def gen_pars(w, info, two_d, tier):
         pars["scale"] = w.choice([0.5, 2.0, 1e-2])
     if w.random() < 0.5:
         pars["background"] = w.choice([0.0, 0.25, 1e-3])
-    control = getattr(info, "control", None)
-    if control and control in byname:
-        lo, hi = byname[control].limits
-        pars[control] = w.randint(int(max(lo, 0)), int(min(hi, 5)))      # multiplicity: number of shells / case
+    for cp in partable.kernel_parameters:
+        if getattr(cp, "is_control", False) and cp.name in byname:
+            lo, hi = cp.limits
+            pars[cp.name] = w.randint(int(max(lo, 0)), int(min(hi, 5)))  # multiplicity: number of shells / case
     if not pd_names:
         return pars, 0
     r = w.random()
